@@ -30,7 +30,7 @@ SPEC = {
     "assumptions": ["default recursion limit of the interpreter (not lowered)", "sizes bounded by the tier (quick <= 5000 atoms, thorough <= 10000); a watchdog firing is inconclusive, not a violation"],
     "shards": {"quick": len(JOBS["quick"]), "thorough": len(JOBS["thorough"])},
     "monitors_required": ["c15_completion", "c15_depth_monitor"],
-    "required_obs": {"quick": ["cov_depth_linear_family_ge_2000_atoms", "cov_components_ge_1000", "cov_atoms_ge_4000", "cov_complete_graph", "cov_single_atom", "cov_steering_families"]},
+    "required_obs": {"quick": ["cov_depth_linear_family_ge_2000_atoms", "cov_components_ge_1000", "cov_atoms_ge_4000", "cov_complete_graph", "cov_single_atom", "cov_steering_families", "cov_molfile_route_v2000", "cov_molfile_route_v3000", "cov_molfile_route_full_width_coordinate_fields"]},
     "watchdog_s": {"quick": 1500, "thorough": 7200},
 }
 
@@ -174,6 +174,35 @@ def steer(ctx, nmax):
                 ctx.obs.setdefault("steered", {})[fam] = {"slope_frames_per_atom": round(slope, 4), "flat": True}
 
 
+def molfile_route(ctx):
+    """The pipeline fed from molfile text: chains/ladders/polymers of 120-999 atoms drawn in 'pixel' units, so that V2000 coordinate fields are full width."""
+    import tucan.io.molfile_reader as mr
+    import tucan.canonicalization as c
+    import tucan.serialization as s
+    from ..oracles import ctab
+    import random as _r
+    for fam, n, scale in (("path", 120, 30.0), ("polymer", 400, 25.0), ("ladder", 998, 12.5), ("peptide", 600, -20.0), ("comb", 300, 1.5)):
+        mol = G.family(fam, n)
+        for k, a in enumerate(mol.atoms):
+            a.x, a.y, a.z = round(k * scale, 4), round(-k * scale * 0.5, 4), round((k % 7) * scale, 4)
+        for fmt in ("v2000", "v3000"):
+            if fmt == "v2000" and not ctab.v2000_representable(mol):
+                ctx.skip("molfile route: not representable as V2000")
+                continue
+            text = ctab.render_v2000(mol, ctab.V2Style(), _r.Random(0)) if fmt == "v2000" else ctab.render_v3000(mol, ctab.V3Style(), _r.Random(0))
+            ctx.evaluations += 1
+            ctx.mon("c15_completion")
+            try:
+                out = s.serialize_molecule(c.canonicalize_molecule(mr.graph_from_molfile_text(text)))
+                ctx.count("cov_molfile_route_" + fmt)
+                if any(len(f"{v:.4f}") >= 10 for a in mol.atoms for v in (a.y, a.z)) and fmt == "v2000":
+                    ctx.count("cov_molfile_route_full_width_coordinate_fields")
+            except BaseException as e:
+                ctx.violation("completion", {"what": f"pipeline from {fmt} text ended in {type(e).__name__}", "family": fam, "atoms": len(mol.atoms), "message": str(e)[:200],
+                                             "deepest_frames": [f"{f.name}@{f.filename.split('/')[-1]}:{f.lineno}" for f in traceback.extract_tb(e.__traceback__)[-5:]],
+                                             "text_head": text[:600]}, {"family": fam, "n": n, "route": fmt})
+
+
 def small_sweep(ctx):
     for fam in ("path", "cycle", "cycle13c", "ladder", "comb", "caterpillar", "star", "polymer", "peptide", "h2", "isolated", "complete", "grid", "bintree"):
         for n in range(1, 41):
@@ -188,6 +217,7 @@ def small_sweep(ctx):
             elif res["atoms"] >= 3:
                 ctx.nontrivial((fam, res["atoms"]))
     ctx.obs["small_sweep_done"] = 1
+    molfile_route(ctx)
 
 
 def run(ctx):
